@@ -209,7 +209,16 @@ class Scope(Error):
     def transfer(self, source: dict[str, Any], destination: dict[str, Any]) -> None:
         for key, value in source.items():
             if key not in destination:
-                destination[key] = value
+                # a COPY of the containers: the destination is extended by the next template (`inherit [ t1 t2 ]`), and
+                # with the template's own list in place t1 itself grew the routes of t2 -- every neighbor parsed later
+                # which inherits t1 alone was given both
+                if isinstance(value, list):
+                    destination[key] = list(value)
+                elif isinstance(value, dict):
+                    destination[key] = {}
+                    self.transfer(value, destination[key])
+                else:
+                    destination[key] = value
             elif isinstance(source[key], list):
                 destination[key].extend(value)
             elif isinstance(source[key], dict):
